@@ -626,7 +626,9 @@ class SyndiffixBlobReader(SyndiffixBlob):
             if len(stitch_columns) > 0:
                 df_stitch = self._read_catalog(stitch_columns)
                 # coerce df_left and df_right to have better quality stitch columns
-                df_left = self._stitch(df_left=df_stitch, df_right=df_left, shared=False)
+                if set(df_left.columns) != set(stitch_columns):
+                    # Nothing to coerce if the left table consists of the stitch columns only.
+                    df_left = self._stitch(df_left=df_stitch, df_right=df_left, shared=False)
                 df_right = self._stitch(df_left=df_stitch, df_right=df_right, shared=False)
             df_left = self._stitch(df_left=df_left, df_right=df_right, shared=True)
         return self._original_order(df_left)
